@@ -699,18 +699,20 @@ theorem foldOut_core (out : PField V → FieldOut V) (F : List (PField V)) (st s
 
 theorem dfItems_fold [DecidableEq V] {W : World V} (LL : LowerLaws W) {P : Parser V} (wf : WF W P) (o : Opts V)
     {data : List (Key × V)} {s : DfScan V} (inv : ScanInv W P data s)
-    (l : List (Key × Input V)) (hl : ∀ ni ∈ l, ni ∈ s.inputs) (acc : St V × List (Key × V)) :
-    ((l.foldl (dfItemStep {} W P o s.conflicts) acc).1.result = (foldOut (outOf W o data) (fieldsOf l) acc.1).result
-      ∧ (l.foldl (dfItemStep {} W P o s.conflicts) acc).1.deps = (foldOut (outOf W o data) (fieldsOf l) acc.1).deps
-      ∧ (l.foldl (dfItemStep {} W P o s.conflicts) acc).1.unprov = (foldOut (outOf W o data) (fieldsOf l) acc.1).unprov)
-    ∧ (∀ e, e ∈ (l.foldl (dfItemStep {} W P o s.conflicts) acc).1.errs ↔
-          e ∈ (foldOut (outOf W o data) (fieldsOf l) acc.1).errs
+    (l : List (Key × Input V)) (hl : ∀ ni ∈ l, ni ∈ s.inputs) (acc : DfRun V) :
+    ((l.foldl (dfItemStep {} W P o s.conflicts) acc).st.result = (foldOut (outA W o data) (fieldsOf l) acc.st).result
+      ∧ (l.foldl (dfItemStep {} W P o s.conflicts) acc).st.deps = (foldOut (outA W o data) (fieldsOf l) acc.st).deps
+      ∧ (l.foldl (dfItemStep {} W P o s.conflicts) acc).st.unprov = (foldOut (outA W o data) (fieldsOf l) acc.st).unprov)
+    ∧ (∀ e, e ∈ (l.foldl (dfItemStep {} W P o s.conflicts) acc).st.errs ↔
+          e ∈ (foldOut (outA W o data) (fieldsOf l) acc.st).errs
           ∨ ∃ kv ∈ extrasOf l, e ∈ (parseAddition W P o kv.1 kv.2).2)
-    ∧ (l.foldl (dfItemStep {} W P o s.conflicts) acc).2 = (extrasOf l).foldl (keepStep W P o) acc.2
-    ∧ ∀ ni ∈ l, ∀ g, ni.2.field = some g →
-        ∃ kf ∈ P.fields, kf.2 = g ∧ kf.2.name = ni.1 ∧ (outOf W o data kf.2).provided = true := by
+    ∧ (l.foldl (dfItemStep {} W P o s.conflicts) acc).addition = (extrasOf l).foldl (keepStep W P o) acc.addition
+    ∧ (∀ ni ∈ l, ∀ g, ni.2.field = some g →
+        ∃ kf ∈ P.fields, kf.2 = g ∧ kf.2.name = ni.1 ∧ given W kf.2 data = true)
+    ∧ (∀ n, n ∈ (l.foldl (dfItemStep {} W P o s.conflicts) acc).excluded ↔
+          n ∈ acc.excluded ∨ ∃ ni ∈ l, ∃ g, ni.2.field = some g ∧ ni.1 = n ∧ isExcluded W o g data = true) := by
   induction l generalizing acc with
-  | nil => exact ⟨⟨rfl, rfl, rfl⟩, fun e => by simp [fieldsOf, extrasOf], rfl, by simp⟩
+  | nil => exact ⟨⟨rfl, rfl, rfl⟩, fun e => by simp [fieldsOf, extrasOf], rfl, by simp, by simp⟩
   | cons ni l ih =>
     have hni := hl ni (by simp)
     have hl' : ∀ x ∈ l, x ∈ s.inputs := fun x hx => hl x (List.mem_cons_of_mem _ hx)
@@ -718,19 +720,19 @@ theorem dfItems_fold [DecidableEq V] {W : World V} (LL : LowerLaws W) {P : Parse
     cases hfield : ni.2.field with
     | none =>
       have hstep : dfItemStep {} W P o s.conflicts acc ni =
-          ({ acc.1 with errs := acc.1.errs ++ (parseAddition W P o ni.1 ni.2.value).2 },
-           keepStep W P o acc.2 (ni.1, ni.2.value)) := by
+          { acc with st := { acc.st with errs := acc.st.errs ++ (parseAddition W P o ni.1 ni.2.value).2 }
+                     addition := keepStep W P o acc.addition (ni.1, ni.2.value) } := by
         unfold dfItemStep keepStep; simp only [hfield]; rfl
       have hF : fieldsOf (ni :: l) = fieldsOf l := by
         unfold fieldsOf; rw [List.filterMap_cons_none (f := fun x : Key × Input V => x.2.field) hfield]
       have hX : extrasOf (ni :: l) = (ni.1, ni.2.value) :: extrasOf l := by
         unfold extrasOf
         rw [List.filterMap_cons_some (b := (ni.1, ni.2.value)) (by simp [extraOf, hfield])]
-      obtain ⟨⟨i1, i2, i3⟩, i4, i5, i6⟩ := ih hl' (dfItemStep {} W P o s.conflicts acc ni)
+      obtain ⟨⟨i1, i2, i3⟩, i4, i5, i6, i7⟩ := ih hl' (dfItemStep {} W P o s.conflicts acc ni)
       rw [hF, hX]
-      obtain ⟨c1, c2, c3⟩ := foldOut_core (outOf W o data) (fieldsOf l)
-        (dfItemStep {} W P o s.conflicts acc ni).1 acc.1 (by rw [hstep]) (by rw [hstep]) (by rw [hstep])
-      refine ⟨⟨i1.trans c1, i2.trans c2, i3.trans c3⟩, ?_, ?_, ?_⟩
+      obtain ⟨c1, c2, c3⟩ := foldOut_core (outA W o data) (fieldsOf l)
+        (dfItemStep {} W P o s.conflicts acc ni).st acc.st (by rw [hstep]) (by rw [hstep]) (by rw [hstep])
+      refine ⟨⟨i1.trans c1, i2.trans c2, i3.trans c3⟩, ?_, ?_, ?_, ?_⟩
       · intro e
         rw [i4 e, foldOut_errs, foldOut_errs, hstep]
         simp only [List.mem_append, List.mem_cons, exists_eq_or_imp]
@@ -750,6 +752,9 @@ theorem dfItems_fold [DecidableEq V] {W : World V} (LL : LowerLaws W) {P : Parse
         rcases List.mem_cons.mp hx with e | e
         · subst e; rw [hfield] at hg; cases hg
         · exact i6 x e g hg
+      · intro n
+        rw [i7 n, hstep]
+        simp only [List.mem_cons, exists_eq_or_imp, hfield, reduceCtorEq, false_and, exists_false, false_or]
     | some f =>
       -- a field entry: the scan invariant tells what it holds
       obtain ⟨kf, hf, hname⟩ : ∃ kf ∈ P.fields, kf.2.name = ni.1 := by
@@ -785,36 +790,52 @@ theorem dfItems_fold [DecidableEq V] {W : World V} (LL : LowerLaws W) {P : Parse
           · rintro ⟨x, hx, hne⟩
             exact ⟨x, by rw [mem_valsOf_iff, hc]; exact List.mem_cons_of_mem _ hx, hne⟩
         have hval : ni.2.value = w.2 := by rw [hinp]
+        obtain ⟨hp1, hp2⟩ := provide_eq W o kf.2 data acc.st w.2 rest hc
         have hstep : dfItemStep {} W P o s.conflicts acc ni =
-            (applyOut kf.2 (outOf W o data kf.2) acc.1, acc.2) := by
+            { acc with st := applyOut kf.2 (outA W o data kf.2) acc.st
+                       excluded := if isExcluded W o kf.2 data then acc.excluded ++ [ni.1] else acc.excluded } := by
           unfold dfItemStep
           rw [hfield]
           simp only
-          rw [hflag, hfe, hval]
-          exact congrArg (fun x => (x, acc.2)) (provide_eq W o kf.2 data acc.1 w.2 rest hc)
-        have hprov : (outOf W o data kf.2).provided = true := by
-          unfold outOf; rw [provided_eq, hc]; rfl
+          rw [hflag, hfe, hval, hp1, hp2]
+        have hgiven : given W kf.2 data = true := by unfold given; rw [hc]; rfl
         have hF : fieldsOf (ni :: l) = kf.2 :: fieldsOf l := by
           unfold fieldsOf
           rw [List.filterMap_cons_some (f := fun x : Key × Input V => x.2.field) (b := kf.2) (by simp only [hfield, hfe])]
         have hX : extrasOf (ni :: l) = extrasOf l := by
           unfold extrasOf; rw [List.filterMap_cons_none (by simp [extraOf, hfield])]
-        obtain ⟨i123, i4, i5, i6⟩ := ih hl' (dfItemStep {} W P o s.conflicts acc ni)
+        obtain ⟨i123, i4, i5, i6, i7⟩ := ih hl' (dfItemStep {} W P o s.conflicts acc ni)
         rw [hF, hX, foldOut_cons, hstep]
-        rw [hstep] at i123 i4 i5
-        refine ⟨i123, i4, i5, ?_⟩
-        intro x hx g hg
-        rcases List.mem_cons.mp hx with e | e
-        · subst e
-          rw [hfield] at hg
-          exact ⟨kf, hf, by rw [← hfe]; exact Option.some.inj hg, hname, hprov⟩
-        · exact i6 x e g hg
+        rw [hstep] at i123 i4 i5 i7
+        refine ⟨i123, i4, i5, ?_, ?_⟩
+        · intro x hx g hg
+          rcases List.mem_cons.mp hx with e | e
+          · subst e
+            rw [hfield] at hg
+            exact ⟨kf, hf, by rw [← hfe]; exact Option.some.inj hg, hname, hgiven⟩
+          · exact i6 x e g hg
+        · intro n
+          rw [i7 n]
+          simp only [List.mem_cons, exists_eq_or_imp, hfield, Option.some.injEq, exists_eq_left']
+          rw [hfe]
+          cases hex : isExcluded W o kf.2 data
+          · simp
+          · simp only [if_true, List.mem_append, List.mem_singleton, true_and, and_true]
+            constructor
+            · rintro ((h | h) | h)
+              · exact Or.inl h
+              · exact Or.inr (Or.inl h.symm)
+              · exact Or.inr (Or.inr h)
+            · rintro (h | h | h)
+              · exact Or.inl (Or.inl h)
+              · exact Or.inl (Or.inr h.symm)
+              · exact Or.inr h
 
-theorem dhas_inputs_iff [DecidableEq V] {W : World V} {P : Parser V} (wf : WF W P) (o : Opts V)
+theorem dhas_inputs_iff [DecidableEq V] {W : World V} {P : Parser V} (wf : WF W P)
     {data : List (Key × V)} {s : DfScan V} (inv : ScanInv W P data s) {kf : Key × PField V} (hf : kf ∈ P.fields) :
-    dhas kf.2.name s.inputs = (outOf W o data kf.2).provided := by
-  unfold dhas outOf
-  rw [inv.inp kf hf, provided_eq]
+    dhas kf.2.name s.inputs = given W kf.2 data := by
+  unfold dhas given
+  rw [inv.inp kf hf]
   have := best_eq_head wf hf data
   cases hb : best W kf.2 data with
   | none =>
@@ -827,24 +848,39 @@ theorem dhas_inputs_iff [DecidableEq V] {W : World V} {P : Parser V} (wf : WF W 
     | nil => rw [hc] at this; cases this
     | cons c rest => simp
 
+/-- the fill loop: the statements for a field without input, run for the fields that were not given and for
+those whose value was dropped -/
 theorem dfAbsent_fold [DecidableEq V] {W : World V} {P : Parser V} (wf : WF W P) (o : Opts V)
-    {data : List (Key × V)} {s : DfScan V} (inv : ScanInv W P data s)
+    {data : List (Key × V)} {s : DfScan V} (inv : ScanInv W P data s) (excluded : List Key)
+    (hex : ∀ kf ∈ P.fields, excluded.contains kf.2.name = (given W kf.2 data && isExcluded W o kf.2 data))
     (l : List (Key × PField V)) (hl : ∀ kf ∈ l, kf ∈ P.fields) (st : St V) :
-    l.foldl (fun st kf => if dhas kf.2.name s.inputs then st else absent {} o kf.2 st) st
-      = foldOut (outOf W o data) ((l.filter fun kf => !(outOf W o data kf.2).provided).map (·.2)) st := by
+    l.foldl (fun st kf => if dhas kf.2.name s.inputs && !excluded.contains kf.2.name then st
+                          else absent {} o kf.2 st) st
+      = foldOut (outB W o data) ((l.filter fun kf => !(outOf W o data kf.2).provided).map (·.2)) st := by
   induction l generalizing st with
   | nil => rfl
   | cons kf l ih =>
     have hf := hl kf (by simp)
-    rw [List.foldl_cons, dhas_inputs_iff wf o inv hf, List.filter_cons]
+    have hcond : (dhas kf.2.name s.inputs && !excluded.contains kf.2.name) = (outOf W o data kf.2).provided := by
+      rw [dhas_inputs_iff wf inv hf, hex kf hf]
+      unfold outOf; rw [provided_eq]
+      cases given W kf.2 data <;> cases isExcluded W o kf.2 data <;> rfl
+    rw [List.foldl_cons, hcond, List.filter_cons]
     cases hp : (outOf W o data kf.2).provided
     · simp only [Bool.false_eq_true, if_false, Bool.not_false, if_true, List.map_cons, foldOut_cons]
-      have hc : candidates W kf.2 data = [] := by
-        unfold outOf at hp; rw [provided_eq] at hp
-        cases h : candidates W kf.2 data with
-        | nil => rfl
-        | cons c r => rw [h] at hp; cases hp
-      rw [absent_eq W o kf.2 data st hc]
+      have hstep : absent {} o kf.2 st = applyOut kf.2 (outB W o data kf.2) st := by
+        cases hx : isExcluded W o kf.2 data
+        · have hg : given W kf.2 data = false := by
+            unfold outOf at hp; rw [provided_eq, hx] at hp; simpa using hp
+          have hc : candidates W kf.2 data = [] := by
+            unfold given at hg
+            cases h : candidates W kf.2 data with
+            | nil => rfl
+            | cons c r => rw [h] at hg; cases hg
+          rw [absent_eq W o kf.2 data st hc]
+          unfold outB; rw [hx]; rfl
+        · exact absent_excluded_eq W o kf.2 data st hx
+      rw [hstep]
       exact ih (fun x hx => hl x (List.mem_cons_of_mem _ hx)) _
     · simp only [if_true, Bool.not_true, Bool.false_eq_true, if_false]
       exact ih (fun x hx => hl x (List.mem_cons_of_mem _ hx)) _
@@ -895,162 +931,297 @@ theorem dataFirst_equiv_ref [DecidableEq V] {W : World V} (LL : LowerLaws W) {P 
     ∧ (∀ e, e ∈ (dataFirst {} W P o data).errs ↔ e ∈ (refRun W P o data).errs) := by
   have inv := scanInv LL wf data hndata
   generalize hs : data.foldl (dfScanStep W P) {} = s at inv
-  obtain ⟨⟨p1, p2, p3⟩, p4, p5, hprovmem⟩ :=
-    dfItems_fold LL wf o inv s.inputs (fun _ h => h) (({} : St V), ([] : List (Key × V)))
-  generalize hr : s.inputs.foldl (dfItemStep {} W P o s.conflicts) (({} : St V), ([] : List (Key × V))) = r
-    at p1 p2 p3 p4 p5
-  have habs := dfAbsent_fold wf o inv P.fields (fun _ h => h) r.1
+  obtain ⟨⟨p1, p2, p3⟩, p4, p5, hprovmem, p7⟩ :=
+    dfItems_fold LL wf o inv s.inputs (fun _ h => h) ({} : DfRun V)
+  generalize hr : s.inputs.foldl (dfItemStep {} W P o s.conflicts) ({} : DfRun V) = r at p1 p2 p3 p4 p5 p7
   let provL := fieldsOf s.inputs
   let absL := (P.fields.filter fun kf => !(outOf W o data kf.2).provided).map (·.2)
+  -- membership in the two lists
+  have hmemprov : ∀ g, g ∈ provL ↔ ∃ kf ∈ P.fields, kf.2 = g ∧ given W kf.2 data = true := by
+    intro g
+    constructor
+    · intro hg
+      simp only [provL, fieldsOf, List.mem_filterMap] at hg
+      obtain ⟨ni, hni, he⟩ := hg
+      obtain ⟨kf, hf, hfe, _, hp⟩ := hprovmem ni hni g he
+      exact ⟨kf, hf, hfe, hp⟩
+    · rintro ⟨kf, hf, rfl, hg⟩
+      have hd : dhas kf.2.name s.inputs = true := by rw [dhas_inputs_iff wf inv hf, hg]
+      unfold dhas at hd
+      cases hgt : dget kf.2.name s.inputs with
+      | none => rw [hgt] at hd; cases hd
+      | some inp =>
+        have hm := dget_mem hgt
+        have hi := inv.inp kf hf
+        rw [hgt] at hi
+        cases hb : best W kf.2 data with
+        | none => rw [hb] at hi; cases hi
+        | some w =>
+          rw [hb] at hi
+          simp only [Option.map_some, Option.some.injEq] at hi
+          simp only [provL, fieldsOf, List.mem_filterMap]
+          exact ⟨(kf.2.name, inp), hm, by rw [hi]⟩
+  have hmemabs : ∀ g, g ∈ absL ↔ ∃ kf ∈ P.fields, kf.2 = g ∧ (outOf W o data kf.2).provided = false := by
+    intro g
+    simp only [absL, List.mem_map, List.mem_filter, Bool.not_eq_true']
+    constructor
+    · rintro ⟨kf, ⟨hf, hp⟩, he⟩; exact ⟨kf, hf, he, hp⟩
+    · rintro ⟨kf, hf, he, hp⟩; exact ⟨kf, ⟨hf, hp⟩, he⟩
+  have hprovided : ∀ kf ∈ P.fields, (outOf W o data kf.2).provided = (given W kf.2 data && !isExcluded W o kf.2 data) := by
+    intro kf _; unfold outOf; exact provided_eq W o kf.2 data
+  -- the names dropped by 'exclude'
+  have hex : ∀ kf ∈ P.fields, r.excluded.contains kf.2.name = (given W kf.2 data && isExcluded W o kf.2 data) := by
+    intro kf hf
+    rw [Bool.eq_iff_iff, List.contains_iff_mem, p7]
+    simp only [List.not_mem_nil, false_or, Bool.and_eq_true]
+    constructor
+    · rintro ⟨ni, hni, g, hg, hn, hx⟩
+      obtain ⟨kg, hgf, hge, hname, hgiven⟩ := hprovmem ni hni g hg
+      have : kg = kf := wf.name_inj hgf hf (by rw [hname, hn])
+      subst this
+      rw [hge]; exact ⟨by rw [← hge]; exact hgiven, hx⟩
+    · rintro ⟨hg, hx⟩
+      have hm := (hmemprov kf.2).2 ⟨kf, hf, rfl, hg⟩
+      simp only [provL, fieldsOf, List.mem_filterMap] at hm
+      obtain ⟨ni, hni, he⟩ := hm
+      obtain ⟨kg, hgf, hge, hname, _⟩ := hprovmem ni hni kf.2 he
+      have : kg = kf := by
+        cases kg; cases kf; simp only at hge
+        exact wf.name_inj hgf hf (by simp only; rw [hge])
+      subst this
+      exact ⟨ni, hni, kg.2, he, hname.symm, hx⟩
+  have habs := dfAbsent_fold wf o inv r.excluded hex P.fields (fun _ h => h) r.st
   -- the additional keys
   have hX : extrasOf s.inputs = extras W P data := inv.ext
   have haddfold := addStep_fold W P o (extras W P data) [] []
-  have hadd1 : r.2 = (addAll W P o (extras W P data)).1 := by
+  have hadd1 : r.addition = (addAll W P o (extras W P data)).1 := by
     rw [p5, hX]; unfold addAll; rw [haddfold]
   have hadd2 : ∀ e, (∃ kv ∈ extrasOf s.inputs, e ∈ (parseAddition W P o kv.1 kv.2).2)
       ↔ e ∈ (addAll W P o (extras W P data)).2 := by
     intro e
     rw [hX]; unfold addAll; rw [haddfold]
     simp [List.mem_flatMap]
-  -- the state before the dependency check
-  have hcore := foldOut_core (outOf W o data) absL r.1 (foldOut (outOf W o data) provL ({} : St V)) p1 p2 p3
-  -- the fields met by the two loops are exactly the declared ones, once each
-  have hmemprov : ∀ g, g ∈ provL → ∃ kf ∈ P.fields, kf.2 = g ∧ (outOf W o data kf.2).provided = true := by
-    intro g hg
-    simp only [provL, fieldsOf, List.mem_filterMap] at hg
-    obtain ⟨ni, hni, he⟩ := hg
-    obtain ⟨kf, hf, hfe, _, hp⟩ := hprovmem ni hni g he
-    exact ⟨kf, hf, hfe, hp⟩
-  have hmem : ∀ g, g ∈ provL ++ absL ↔ g ∈ P.fields.map (·.2) := by
-    intro g
-    rw [List.mem_append]
-    constructor
-    · rintro (h | h)
-      · obtain ⟨kf, hf, he, _⟩ := hmemprov g h
-        exact List.mem_map.mpr ⟨kf, hf, he⟩
-      · simp only [absL, List.mem_map, List.mem_filter] at h
-        obtain ⟨kf, ⟨hf, _⟩, he⟩ := h
-        exact List.mem_map.mpr ⟨kf, hf, he⟩
-    · intro h
-      obtain ⟨kf, hf, rfl⟩ := List.mem_map.mp h
-      cases hp : (outOf W o data kf.2).provided
-      · right
-        simp only [absL, List.mem_map, List.mem_filter]
-        exact ⟨kf, ⟨hf, by simp [hp]⟩, rfl⟩
-      · left
-        have hd : dhas kf.2.name s.inputs = true := by rw [dhas_inputs_iff wf o inv hf, hp]
-        unfold dhas at hd
-        cases hg : dget kf.2.name s.inputs with
-        | none => rw [hg] at hd; cases hd
-        | some inp =>
-          have hm := dget_mem hg
-          have hi := inv.inp kf hf
-          rw [hg] at hi
-          cases hb : best W kf.2 data with
-          | none => rw [hb] at hi; cases hi
-          | some w =>
-            rw [hb] at hi
-            simp only [Option.map_some, Option.some.injEq] at hi
-            simp only [provL, fieldsOf, List.mem_filterMap]
-            exact ⟨(kf.2.name, inp), hm, by rw [hi]⟩
-  have hnd : ((provL ++ absL).map (·.name)).Nodup := by
-    rw [List.map_append, List.nodup_append]
-    refine ⟨?_, ?_, ?_⟩
-    · -- names of the provided fields are distinct keys of `inputs`
-      have hgen : ∀ (l : List (Key × Input V)), (∀ ni ∈ l, ni ∈ s.inputs) → (l.map (·.1)).Nodup →
-          ((fieldsOf l).map (·.name)).Nodup ∧ ∀ n ∈ (fieldsOf l).map (·.name), n ∈ l.map (·.1) := by
-        intro l
-        induction l with
-        | nil => intro _ _; exact ⟨by simp [fieldsOf], by simp [fieldsOf]⟩
-        | cons ni l ih =>
-          intro hl hn
-          simp only [List.map_cons, List.nodup_cons] at hn
-          obtain ⟨ih1, ih2⟩ := ih (fun x hx => hl x (List.mem_cons_of_mem _ hx)) hn.2
-          cases hfield : ni.2.field with
-          | none =>
-            have : fieldsOf (ni :: l) = fieldsOf l := by
-              unfold fieldsOf; rw [List.filterMap_cons_none (f := fun x : Key × Input V => x.2.field) hfield]
-            rw [this]
-            exact ⟨ih1, fun n hn' => List.mem_cons_of_mem _ (ih2 n hn')⟩
-          | some g =>
-            have : fieldsOf (ni :: l) = g :: fieldsOf l := by
-              unfold fieldsOf; rw [List.filterMap_cons_some (f := fun x : Key × Input V => x.2.field) hfield]
-            rw [this]
-            obtain ⟨kf, hf, hfe, hname, _⟩ := hprovmem ni (hl ni (by simp)) g hfield
-            have hgn : g.name = ni.1 := by rw [← hfe]; exact hname
-            simp only [List.map_cons, List.nodup_cons]
-            refine ⟨⟨?_, ih1⟩, ?_⟩
-            · intro hc; rw [hgn] at hc; exact hn.1 (ih2 _ hc)
-            · intro n hn'
-              rcases List.mem_cons.mp hn' with e | e
-              · rw [e, hgn]; simp
-              · exact List.mem_cons_of_mem _ (ih2 n e)
-      exact (hgen s.inputs (fun _ h => h) inv.nodup).1
-    · simp only [absL, List.map_map]
-      exact nodup_map_filter_of (fun kf : Key × PField V => kf.2.name) _ wf.names_nodup
-    · intro a ha b hb e
-      simp only [List.mem_map] at ha hb
-      obtain ⟨g, hg, rfl⟩ := ha
-      obtain ⟨g', hg', rfl⟩ := hb
-      obtain ⟨kg, hgf, he, hp⟩ := hmemprov g hg
-      simp only [absL, List.mem_map, List.mem_filter] at hg'
-      obtain ⟨kf, ⟨hf, hnp⟩, he'⟩ := hg'
-      rw [← he, ← he'] at e
-      have : kg = kf := wf.name_inj hgf hf e
-      subst this
-      rw [hp] at hnp; cases hnp
-  -- compare with the fold in declaration order
+  -- names are distinct in each list
   have hndF : ((P.fields.map (·.2)).map (·.name)).Nodup := by
     rw [List.map_map]; exact wf.names_nodup
-  let st2 := foldOut (outOf W o data) absL r.1
-  let stP := foldOut (outOf W o data) (provL ++ absL) ({} : St V)
+  have hndA : (absL.map (·.name)).Nodup := by
+    simp only [absL, List.map_map]
+    exact nodup_map_filter_of (fun kf : Key × PField V => kf.2.name) _ wf.names_nodup
+  have hndP : (provL.map (·.name)).Nodup := by
+    have hgen : ∀ (l : List (Key × Input V)), (∀ ni ∈ l, ni ∈ s.inputs) → (l.map (·.1)).Nodup →
+        ((fieldsOf l).map (·.name)).Nodup ∧ ∀ n ∈ (fieldsOf l).map (·.name), n ∈ l.map (·.1) := by
+      intro l
+      induction l with
+      | nil => intro _ _; exact ⟨by simp [fieldsOf], by simp [fieldsOf]⟩
+      | cons ni l ih =>
+        intro hl hn
+        simp only [List.map_cons, List.nodup_cons] at hn
+        obtain ⟨ih1, ih2⟩ := ih (fun x hx => hl x (List.mem_cons_of_mem _ hx)) hn.2
+        cases hfield : ni.2.field with
+        | none =>
+          have : fieldsOf (ni :: l) = fieldsOf l := by
+            unfold fieldsOf; rw [List.filterMap_cons_none (f := fun x : Key × Input V => x.2.field) hfield]
+          rw [this]
+          exact ⟨ih1, fun n hn' => List.mem_cons_of_mem _ (ih2 n hn')⟩
+        | some g =>
+          have : fieldsOf (ni :: l) = g :: fieldsOf l := by
+            unfold fieldsOf; rw [List.filterMap_cons_some (f := fun x : Key × Input V => x.2.field) hfield]
+          rw [this]
+          obtain ⟨kf, hf, hfe, hname, _⟩ := hprovmem ni (hl ni (by simp)) g hfield
+          have hgn : g.name = ni.1 := by rw [← hfe]; exact hname
+          simp only [List.map_cons, List.nodup_cons]
+          refine ⟨⟨?_, ih1⟩, ?_⟩
+          · intro hc; rw [hgn] at hc; exact hn.1 (ih2 _ hc)
+          · intro n hn'
+            rcases List.mem_cons.mp hn' with e | e
+            · rw [e, hgn]; simp
+            · exact List.mem_cons_of_mem _ (ih2 n e)
+    exact (hgen s.inputs (fun _ h => h) inv.nodup).1
+  -- a name in a list of declared fields identifies the field
+  have hname_mem : ∀ (L : List (PField V)), (∀ g ∈ L, ∃ kf ∈ P.fields, kf.2 = g) →
+      ∀ kf ∈ P.fields, kf.2.name ∈ L.map (·.name) → kf.2 ∈ L := by
+    intro L hL kf hf hn
+    rw [List.mem_map] at hn
+    obtain ⟨g, hg, he⟩ := hn
+    obtain ⟨kg, hgf, hge⟩ := hL g hg
+    have : kg = kf := wf.name_inj hgf hf (by rw [hge, he])
+    subst this; rw [hge]; exact hg
+  have hLprov : ∀ g ∈ provL, ∃ kf ∈ P.fields, kf.2 = g := fun g hg => by
+    obtain ⟨kf, hf, he, _⟩ := (hmemprov g).1 hg; exact ⟨kf, hf, he⟩
+  have hLabs : ∀ g ∈ absL, ∃ kf ∈ P.fields, kf.2 = g := fun g hg => by
+    obtain ⟨kf, hf, he, _⟩ := (hmemabs g).1 hg; exact ⟨kf, hf, he⟩
+  -- the states
+  let stX := foldOut (outA W o data) provL ({} : St V)
+  let st2 := foldOut (outB W o data) absL r.st
+  let stY := foldOut (outB W o data) absL stX
   let stF := foldOut (outOf W o data) (P.fields.map (·.2)) ({} : St V)
-  have hst2 : dfAbsentAll {} P o s.inputs r.1 = st2 := by unfold dfAbsentAll; rw [habs]
-  have hP : stP = foldOut (outOf W o data) absL (foldOut (outOf W o data) provL ({} : St V)) := foldOut_append _ _ _ _
-  have hres2 : st2.result = stP.result := by rw [hP]; exact hcore.1
-  have hdeps2 : st2.deps = stP.deps := by rw [hP]; exact hcore.2.1
-  have hunp2 : st2.unprov = stP.unprov := by rw [hP]; exact hcore.2.2
+  have hst2 : dfAbsentAll {} P o s.inputs r.excluded r.st = st2 := by unfold dfAbsentAll; rw [habs]
+  obtain ⟨hres2, hdeps2, hunp2⟩ := foldOut_core (outB W o data) absL r.st stX p1 p2 p3
+  -- outA / outB against the contract
+  have hA_ne : ∀ g, isExcluded W o g data = false → outA W o data g = outOf W o data g := by
+    intro g h; unfold outA outOf; rw [h]; rfl
+  have hB_ne : ∀ g, isExcluded W o g data = false → outB W o data g = outOf W o data g := by
+    intro g h; unfold outB outOf; rw [h]; rfl
   have hres : ∀ k, dget k st2.result = dget k stF.result := by
     intro k
     rw [hres2]
     by_cases hk : k ∈ (P.fields.map (·.2)).map (·.name)
     · rw [List.mem_map] at hk
       obtain ⟨g, hg, rfl⟩ := hk
-      rw [foldOut_result_mem _ _ _ hnd ((hmem g).2 hg), foldOut_result_mem _ _ _ hndF hg]
-    · have hk' : k ∉ (provL ++ absL).map (·.name) := by
+      obtain ⟨kf, hf, rfl⟩ := List.mem_map.mp hg
+      rw [foldOut_result_mem _ _ _ hndF hg]
+      cases hp : (outOf W o data kf.2).provided
+      · -- not given, or dropped: the fill loop stores the contract's value
+        have hga : kf.2 ∈ absL := (hmemabs kf.2).2 ⟨kf, hf, rfl, hp⟩
+        rw [foldOut_result_mem _ _ _ hndA hga]
+        have hvB : (outB W o data kf.2).value = (outOf W o data kf.2).value := by
+          unfold outB outOf; split <;> rfl
+        have hX0 : dget kf.2.name stX.result = none ∨ (outOf W o data kf.2).value.isSome = true → True := fun _ => trivial
+        rw [hvB]
+        cases hv : (outOf W o data kf.2).value with
+        | some v => rfl
+        | none =>
+          simp only [Option.orElse]
+          by_cases hgp : kf.2 ∈ provL
+          · rw [foldOut_result_mem _ _ _ hndP hgp]
+            obtain ⟨kg, hgf, hge, hgiv⟩ := (hmemprov kf.2).1 hgp
+            have : kg = kf := wf.name_inj hgf hf (by rw [hge])
+            subst this
+            have hx : isExcluded W o kg.2 data = true := by
+              rw [hprovided kg hf, hgiv] at hp; simpa using hp
+            unfold outA; rw [hx]; rfl
+          · have : kf.2.name ∉ provL.map (·.name) := fun hc => hgp (hname_mem provL hLprov kf hf hc)
+            rw [foldOut_result_other _ _ _ _ this]
+      · -- given and taken: stored by the second loop
+        have hgiv : given W kf.2 data = true ∧ isExcluded W o kf.2 data = false := by
+          rw [hprovided kf hf] at hp
+          cases hg : given W kf.2 data <;> cases hx : isExcluded W o kf.2 data <;> simp_all
+        have hgp : kf.2 ∈ provL := (hmemprov kf.2).2 ⟨kf, hf, rfl, hgiv.1⟩
+        have hna : kf.2.name ∉ absL.map (·.name) := by
+          intro hc
+          obtain ⟨kg, hgf, hge, hpf⟩ := (hmemabs kf.2).1 (hname_mem absL hLabs kf hf hc)
+          have : kg = kf := wf.name_inj hgf hf (by rw [hge])
+          subst this; rw [hp] at hpf; cases hpf
+        rw [foldOut_result_other _ _ _ _ hna, foldOut_result_mem _ _ _ hndP hgp, hA_ne _ hgiv.2]
+    · have hk1 : k ∉ absL.map (·.name) := by
         intro hc; apply hk
         rw [List.mem_map] at hc ⊢
         obtain ⟨g, hg, he⟩ := hc
-        exact ⟨g, (hmem g).1 hg, he⟩
-      rw [foldOut_result_other _ _ _ _ hk', foldOut_result_other _ _ _ _ hk]
+        obtain ⟨kf, hf, hge⟩ := hLabs g hg
+        exact ⟨g, List.mem_map.mpr ⟨kf, hf, hge⟩, he⟩
+      have hk2 : k ∉ provL.map (·.name) := by
+        intro hc; apply hk
+        rw [List.mem_map] at hc ⊢
+        obtain ⟨g, hg, he⟩ := hc
+        obtain ⟨kf, hf, hge⟩ := hLprov g hg
+        exact ⟨g, List.mem_map.mpr ⟨kf, hf, hge⟩, he⟩
+      rw [foldOut_result_other _ _ _ _ hk1, foldOut_result_other _ _ _ _ hk2, foldOut_result_other _ _ _ _ hk]
+  -- a field of the contract, as seen by the two loops
+  have hcover : ∀ kf ∈ P.fields, (kf.2 ∈ provL ∧ (isExcluded W o kf.2 data = true ∨ (outOf W o data kf.2).provided = true))
+      ∨ (kf.2 ∈ absL ∧ given W kf.2 data = false) := by
+    intro kf hf
+    cases hg : given W kf.2 data
+    · right
+      refine ⟨(hmemabs kf.2).2 ⟨kf, hf, rfl, ?_⟩, rfl⟩
+      rw [hprovided kf hf, hg]; rfl
+    · left
+      refine ⟨(hmemprov kf.2).2 ⟨kf, hf, rfl, hg⟩, ?_⟩
+      cases hx : isExcluded W o kf.2 data
+      · right; rw [hprovided kf hf, hg, hx]; rfl
+      · left; rfl
+  have hnotgiven_ne : ∀ g, given W g data = false → isExcluded W o g data = false := by
+    intro g hg
+    unfold given at hg
+    cases hc : candidates W g data with
+    | nil => exact isExcluded_of_nil W o g data hc
+    | cons c r => rw [hc] at hg; cases hg
   have hdeps : ∀ d, d ∈ st2.deps ↔ d ∈ stF.deps := by
     intro d
-    rw [hdeps2, foldOut_deps, foldOut_deps]
+    rw [hdeps2, foldOut_deps, foldOut_deps, foldOut_deps]
     simp only [List.not_mem_nil, false_or]
     constructor
-    · rintro ⟨g, hg, h⟩; exact ⟨g, (hmem g).1 hg, h⟩
-    · rintro ⟨g, hg, h⟩; exact ⟨g, (hmem g).2 hg, h⟩
+    · rintro (⟨g, hg, ha, hd⟩ | ⟨g, hg, ha, hd⟩)
+      · obtain ⟨kf, hf, he⟩ := hLprov g hg
+        have hx : isExcluded W o g data = false := by
+          cases hx : isExcluded W o g data
+          · rfl
+          · unfold outA at ha; rw [hx] at ha; cases ha
+        rw [hA_ne g hx] at ha
+        exact ⟨g, List.mem_map.mpr ⟨kf, hf, he⟩, ha, hd⟩
+      · obtain ⟨kf, hf, he⟩ := hLabs g hg
+        have hx : isExcluded W o g data = false := by
+          cases hx : isExcluded W o g data
+          · rfl
+          · unfold outB at ha; rw [hx] at ha; cases ha
+        rw [hB_ne g hx] at ha
+        exact ⟨g, List.mem_map.mpr ⟨kf, hf, he⟩, ha, hd⟩
+    · rintro ⟨g, hg, ha, hd⟩
+      obtain ⟨kf, hf, rfl⟩ := List.mem_map.mp hg
+      have hx : isExcluded W o kf.2 data = false := by
+        cases hx : isExcluded W o kf.2 data
+        · rfl
+        · exfalso
+          have := ffExcluded_eq W o kf.2 data ({} : St V) hx
+          -- in the dropped branch the contract is inactive
+          unfold outOf at ha
+          unfold isExcluded at hx
+          unfold fieldContract at ha
+          cases hc : candidates W kf.2 data with
+          | nil => rw [hc] at hx; cases hx
+          | cons c rest =>
+            rw [hc] at hx ha
+            simp only [Bool.and_eq_true, Bool.not_eq_true', Option.isNone_iff_eq_none, decide_eq_true_eq] at hx
+            obtain ⟨⟨⟨hn, hfp⟩, hoe⟩, hr⟩ := hx
+            simp [hn, hfp, hoe, hr] at ha
+      rcases hcover kf hf with ⟨hp, _⟩ | ⟨hp, _⟩
+      · exact Or.inl ⟨kf.2, hp, by rw [hA_ne _ hx]; exact ha, hd⟩
+      · exact Or.inr ⟨kf.2, hp, by rw [hB_ne _ hx]; exact ha, hd⟩
   have hunp : ∀ n, n ∈ st2.unprov ↔ n ∈ stF.unprov := by
     intro n
-    rw [hunp2, foldOut_unprov, foldOut_unprov]
+    rw [hunp2, foldOut_unprov, foldOut_unprov, foldOut_unprov]
     simp only [List.not_mem_nil, false_or]
     constructor
-    · rintro ⟨g, hg, h⟩; exact ⟨g, (hmem g).1 hg, h⟩
-    · rintro ⟨g, hg, h⟩; exact ⟨g, (hmem g).2 hg, h⟩
+    · rintro (⟨g, hg, hp, hn⟩ | ⟨g, hg, hp, hn⟩)
+      · obtain ⟨kf, hf, he⟩ := hLprov g hg
+        have hx : isExcluded W o g data = false := by
+          cases hx : isExcluded W o g data
+          · rfl
+          · unfold outA at hp; rw [hx] at hp; cases hp
+        rw [hA_ne g hx] at hp
+        exact ⟨g, List.mem_map.mpr ⟨kf, hf, he⟩, hp, hn⟩
+      · obtain ⟨kf, hf, he, hpf⟩ := (hmemabs g).1 hg
+        exact ⟨g, List.mem_map.mpr ⟨kf, hf, he⟩, by rw [← he]; exact hpf, hn⟩
+    · rintro ⟨g, hg, hp, hn⟩
+      obtain ⟨kf, hf, rfl⟩ := List.mem_map.mp hg
+      right
+      refine ⟨kf.2, (hmemabs kf.2).2 ⟨kf, hf, rfl, hp⟩, ?_, hn⟩
+      unfold outB; split
+      · rfl
+      · exact hp
   have herr : ∀ e, e ∈ st2.errs ↔ e ∈ (addAll W P o (extras W P data)).2 ∨ e ∈ stF.errs := by
     intro e
     rw [foldOut_errs, p4, foldOut_errs, foldOut_errs, hadd2]
     simp only [List.not_mem_nil, false_or]
+    have hAerrs : ∀ g, (outA W o data g).errs = (outOf W o data g).errs := by
+      intro g; unfold outA outOf; split <;> rfl
     constructor
     · rintro ((⟨g, hg, h⟩ | h) | ⟨g, hg, h⟩)
-      · exact Or.inr ⟨g, (hmem g).1 (List.mem_append_left _ hg), h⟩
+      · obtain ⟨kf, hf, he⟩ := hLprov g hg
+        exact Or.inr ⟨g, List.mem_map.mpr ⟨kf, hf, he⟩, by rw [← hAerrs]; exact h⟩
       · exact Or.inl h
-      · exact Or.inr ⟨g, (hmem g).1 (List.mem_append_right _ hg), h⟩
+      · obtain ⟨kf, hf, he⟩ := hLabs g hg
+        have hx : isExcluded W o g data = false := by
+          cases hx : isExcluded W o g data
+          · rfl
+          · unfold outB at h; rw [hx] at h; simp at h
+        rw [hB_ne g hx] at h
+        exact Or.inr ⟨g, List.mem_map.mpr ⟨kf, hf, he⟩, h⟩
     · rintro (h | ⟨g, hg, h⟩)
       · exact Or.inl (Or.inr h)
-      · rcases List.mem_append.mp ((hmem g).2 hg) with hg' | hg'
-        · exact Or.inl (Or.inl ⟨g, hg', h⟩)
-        · exact Or.inr ⟨g, hg', h⟩
+      · obtain ⟨kf, hf, rfl⟩ := List.mem_map.mp hg
+        rcases hcover kf hf with ⟨hp, _⟩ | ⟨hp, hng⟩
+        · exact Or.inl (Or.inl ⟨kf.2, hp, by rw [hAerrs]; exact h⟩)
+        · exact Or.inr ⟨kf.2, hp, by rw [hB_ne _ (hnotgiven_ne _ hng)]; exact h⟩
   have hlack : lackOf P st2 = lackOf P stF := lackOf_of_eq P hres hdeps hunp
   obtain ⟨hd2r, hd2e⟩ := depsCheck_fields P st2
   obtain ⟨hdFr, hdFe⟩ := depsCheck_fields P stF
@@ -1059,7 +1230,7 @@ theorem dataFirst_equiv_ref [DecidableEq V] {W : World V} (LL : LowerLaws W) {P 
   rw [hst2]
   constructor
   · intro k
-    show dget k (dupdate (depsCheck P st2).result r.2) = dget k (dupdate (depsCheck P stF).result _)
+    show dget k (dupdate (depsCheck P st2).result r.addition) = dget k (dupdate (depsCheck P stF).result _)
     rw [dget_dupdate, dget_dupdate, hd2r, hdFr, hres k, hadd1]
   · intro e
     show e ∈ (depsCheck P st2).errs ↔ e ∈ (depsCheck P stF).errs ++ _
